@@ -154,6 +154,20 @@ pub fn run(ctx: &Ctx, st: &mut Stats) {
         }
         st.eval(&C::ab(K::SubTime, t, bts_ref[(i as usize * 7) % bts_ref.len()]), check);
     });
+    // critical times x intervals at unit-scaled powers of two (2^31 s, 2^32 s, 2^32 min ...), both signs
+    let ups = unit_pow2();
+    let tp = time_pool();
+    let (ups_ref, tp_ref) = (&ups, &tp);
+    ctx.par(st, "critical times x intervals at unit-scaled powers of two", true, 0, (ups.len() * tp.len()) as i64, |st, i, _| {
+        let iv = ups_ref[i as usize / tp_ref.len()];
+        let t = tp_ref[i as usize % tp_ref.len()];
+        for v in [iv, -iv] {
+            if v.abs() <= DT_LIM {
+                st.eval(&C::ab(K::AddSub, t, v), check);
+                st.eval(&C::ab(K::FromDt, v, 0), check);
+            }
+        }
+    });
     st.stratum("from-interval/boundaries", true);
     for &i in dt_pool().iter().chain(ivs.iter()) {
         st.eval(&C::ab(K::FromDt, i, 0), check);
